@@ -584,6 +584,13 @@ def c17(sc, req, path):
     if path.kind != 'ok':
         return
     ti, kind = sc.ti, req['kind']
+    from .engine import Unsupported
+    for a_ in path.attributes:
+        k_, v_ = a_.fields
+        if isinstance(k_, z3.ExprRef) and isinstance(v_, Opaque) and v_.tag == 'Fmt':
+            for name_ in ('action', 'id', 'ask_id', 'bid_id', 'size', 'price', 'ask_fee', 'bid_fee', 'reverse_size', 'order_open'):
+                if z3.eq(k_, lit(name_)):
+                    raise Unsupported('attribute %s is built by a format! template the engine does not render' % name_)
     act = attr_values(path, 'action')
     if len(act) != 1:
         yield refute('action_attribute_once', [z3.BoolVal(True)])
